@@ -1,6 +1,6 @@
 //! smoke test of the simulator (not a registered check)
-use crate::outstation::database::*;
 use crate::app::measurement::*;
+use crate::outstation::database::*;
 use crate::verif::refcodec::app as ra;
 use crate::verif::sim::outstation::*;
 use crate::verif::sim::*;
@@ -20,9 +20,17 @@ pub fn run(_a: &ShardArgs) -> Result<(), String> {
         .await;
         println!("t={} after start: {:?}", sim.now(), sim.collect());
         println!("events {:?}", sim.mock.take());
-        let rx = sim.request(&ra::B::request(ra::F_READ, 0).all(60, 1).done()).await;
+        let rx = sim
+            .request(&ra::B::request(ra::F_READ, 0).all(60, 1).done())
+            .await;
         println!("t={} read class0: {:?}", sim.now(), rx);
-        sim.db(|db| db.update(1, &BinaryInput::new(true, Flags::ONLINE, Time::synchronized(1000)), UpdateOptions::detect_event()));
+        sim.db(|db| {
+            db.update(
+                1,
+                &BinaryInput::new(true, Flags::ONLINE, Time::synchronized(1000)),
+                UpdateOptions::detect_event(),
+            )
+        });
         settle().await;
         println!("t={} after update: {:?}", sim.now(), sim.collect());
         sim.advance(5000).await;
